@@ -285,6 +285,10 @@ fn wide_case(seed: u64, idx: u64) -> CaseOut {
     } else {
         (pre, post)
     };
+    // a custom key next to the bar whose output holds a TAB (written char by char): the bar must be sized
+    // against the expanded text
+    let with_tab_key = !multiline && rng.chance(1, 6);
+    let (pre, post) = if with_tab_key { ("{ck} ", "") } else { (pre, post) };
     let spec = format!("{pre}{{wide_bar}}{post}");
     let len = rng.range(0, 2000);
     let pos = rng.range(0, 2100);
@@ -292,6 +296,15 @@ fn wide_case(seed: u64, idx: u64) -> CaseOut {
     let mut co = CaseOut::held(fnv1a(format!("{spec}{w}{set}{len}{pos}").as_bytes()), true);
     let witness = J::obj().with("template", spec.clone()).with("terminal_width", w).with("progress_chars", CHARSETS[set]).with("len", len).with("pos", pos);
     let style = ProgressStyle::with_template(&spec).unwrap().progress_chars(CHARSETS[set]);
+    let style = if with_tab_key {
+        style.with_key("ck", |_: &indicatif::ProgressState, w: &mut dyn std::fmt::Write| {
+            for c in "j\t7".chars() {
+                let _ = w.write_char(c);
+            }
+        })
+    } else {
+        style
+    };
     let r = crate::rend::render_with(w, Some(len), style, move |pb| {
         pb.set_message(if multiline { "m1\nmm22" } else { "mm" });
         pb.set_position(pos);
@@ -299,6 +312,9 @@ fn wide_case(seed: u64, idx: u64) -> CaseOut {
     let mut feats = vec![format!("cell-width-{cw}"), "wide_bar".to_string()];
     if multiline {
         feats.push("newline-in-neighbour".into());
+    }
+    if with_tab_key {
+        feats.push("tab-in-custom-key".into());
     }
     match r {
         Err(p) => co.verdict = viol("panic", feats, format!("{spec} at width {w} panicked: {p}"), witness, replay),
@@ -310,7 +326,10 @@ fn wide_case(seed: u64, idx: u64) -> CaseOut {
             let w = w as usize;
             // the rest of the line without the bar (bar characters may also occur in the rest for
             // alphabetic sets: measure the rest from the template instead)
-            let rest_cols = if multiline {
+            let rest_cols = if with_tab_key {
+                // "j" + 8 blanks + "7" + " "
+                11
+            } else if multiline {
                 if msg_first { 5 } else { 3 }
             } else {
                 pre.len()
